@@ -269,7 +269,10 @@ def parse_atmel(obj):
     return recs, [n.decode("latin1") for n in names if n]
 
 
-def check_run(r, name, outdir, radix, sharefmt, files_trace, acc, label):
+RE_SETTABLE = re.compile(rb"^([A-Za-z_.$@][\w.$@]*):?[ \t]+(?:set|eval)\b|^([A-Za-z_.$@][\w.$@]*)[ \t]*:=", re.I | re.M)
+
+
+def check_run(r, name, outdir, radix, sharefmt, files_trace, acc, label, settable=None):
     """All four rules for one assembled file of a run.  files_trace: the F section of the trace for it."""
     vs = []
     p = r.files.get("%s/%s.p" % (outdir, name))
@@ -495,6 +498,24 @@ def check_run(r, name, outdir, radix, sharefmt, files_trace, acc, label):
                         vs.append(("C19/symbol-share-vs-map", "%s: symbol %s is %s in the share file, %s in the MAP file" % (label, nm, sval, val)))
         if any(x["phase"] for x in final):
             nontrivial = True
+    # rule 4b: share file vs the listing's symbol table (which, unlike the MAP file, also has the symbols outside every
+    # segment: plain constants).  Symbols that the source (re)assigns with SET / EVAL / := are left out: SHARED writes the
+    # value they have at that statement.
+    if sh is not None and lst is not None and not vs:
+        lsyms = parse_listing_symbols(lst, radix)
+        for snm, (sval, kind) in parse_share(sh, sharefmt).items():
+            nm = snm.upper()
+            if nm in (settable or ()) or nm not in lsyms or len(lsyms[("all", nm)]) != 1 or lsyms[nm][1] not in "-CDIXYBPRO":
+                continue
+            lv = to_radix(lsyms[nm][0], radix)
+            sv = share_int(sval, sharefmt)
+            if lv is None or sv is None:
+                continue
+            acc["probes"]["symbols_share_vs_listing"] = acc["probes"].get("symbols_share_vs_listing", 0) + 1
+            lh = to_radix(lsyms[nm][0], 16)
+            if (sv & 0xFFFFFFFFFFFFFFFF) != (lv & 0xFFFFFFFFFFFFFFFF) and (lh is None or (sv & 0xFFFFFFFFFFFFFFFF) != (lh & 0xFFFFFFFFFFFFFFFF)):
+                vs.append(("C19/symbol-share-vs-listing", "%s: symbol %s is %s in the share file, %s in the listing's symbol table" % (label, nm, sval, lsyms[nm][0])))
+                break
     return vs, nontrivial
 
 
@@ -559,7 +580,12 @@ def run_one(sim, sc, name, radix, sharefmt, acc, label, variant):
     for f in tr:
         if f["name"].endswith("/%s.asm" % name) or f["name"] == "%s.asm" % name:
             ft = f
-    vs, nt = check_run(r, name, "/w/t", radix, sharefmt, ft, acc, label)
+    settable = set()
+    for k, v in sc.get("disk", {}).items():
+        if isinstance(v, bytes):
+            for m in RE_SETTABLE.finditer(v):
+                settable.add((m.group(1) or m.group(2)).decode("latin1").upper())
+    vs, nt = check_run(r, name, "/w/t", radix, sharefmt, ft, acc, label, settable)
     return vs, nt, r
 
 
